@@ -122,9 +122,10 @@ const Changelog = `- semver: "1.1.0-1"
     urgency: high
 `
 
-// UnorderedChangelog: versions 1.0.1, 2.0.0, 0.9.0-rc1, 2.0.0, 1.5.0 in this order.
+// UnorderedChangelog: versions 1.0.1, 2.0.0, 0.9.0-rc1, 2.0.0, 1.5.0 in this order; the first entry is dated far in
+// the future (an announced release, a build host whose clock is behind): an entry of the file all the same.
 const UnorderedChangelog = `- semver: "1.0.1"
-  date: "2009-12-08T22:00:00Z"
+  date: "2099-12-08T22:00:00Z"
   packager: "Jane Roe <jane@example.com>"
   changes:
     - note: "note of 1.0.1 (first in the file)"
@@ -366,6 +367,17 @@ func Spec(big int) []Node {
 	ns = append(ns, Node{Rel: "hardlinks/second.bin", Kind: "file", Mode: 0o644, Data: Noise(5000, 31337), LinkOf: "hardlinks/first.bin"})
 	ns = append(ns, Node{Rel: "hardlinks/other.bin", Kind: "file", Mode: 0o644, Data: Noise(300, 31338)})
 	ns = append(ns, Node{Rel: "dirlink", Kind: "symlink", Target: "tree"})
+	// the special mode bits on disk: a sticky directory and file, set-group-id directory and file, all three at once
+	ns = append(ns, Node{Rel: "modes", Kind: "dir", Mode: 0o755})
+	ns = append(ns, Node{Rel: "modes/sticky-dir", Kind: "dir", Mode: 0o777 | os.ModeSticky})
+	ns = append(ns, Node{Rel: "modes/sticky-dir/inside.txt", Kind: "file", Mode: 0o644, Data: text("inside sticky dir", 40)})
+	ns = append(ns, Node{Rel: "modes/setgid-dir", Kind: "dir", Mode: 0o775 | os.ModeSetgid})
+	ns = append(ns, Node{Rel: "modes/setgid-dir/inside.txt", Kind: "file", Mode: 0o664, Data: text("inside setgid dir", 41)})
+	ns = append(ns, Node{Rel: "modes/both-dir", Kind: "dir", Mode: 0o775 | os.ModeSetgid | os.ModeSticky})
+	ns = append(ns, Node{Rel: "modes/both-dir/inside.txt", Kind: "file", Mode: 0o600, Data: text("inside both dir", 42)})
+	ns = append(ns, Node{Rel: "modes/sticky-file", Kind: "file", Mode: 0o644 | os.ModeSticky, Data: text("sticky file", 43)})
+	ns = append(ns, Node{Rel: "modes/setgid-file", Kind: "file", Mode: 0o755 | os.ModeSetgid, Data: text("setgid file", 44)})
+	ns = append(ns, Node{Rel: "modes/all-file", Kind: "file", Mode: 0o755 | os.ModeSetuid | os.ModeSetgid | os.ModeSticky, Data: text("all bits file", 45)})
 	ns = append(ns, Node{Rel: "epochs", Kind: "dir", Mode: 0o755})
 	for _, n := range []string{"epochs/y1960.txt", "epochs/y1970.txt", "epochs/y2040.txt", "epochs/y2110.txt"} {
 		ns = append(ns, Node{Rel: n, Kind: "file", Mode: 0o644, Data: text(n, 30)})
